@@ -19,7 +19,40 @@ const STUB: [&str; 4] = [
 ];
 
 pub fn all() -> Vec<Property> {
-    vec![c01(), c07(), c08(), c09()]
+    vec![c01(), c07(), c08(), c09(), c10()]
+}
+
+fn c10() -> Property {
+    Property {
+        id: "C10",
+        level: "exploration",
+        variants: vec![
+            Variant {
+                name: "client-receiver-vs-fragmenting-sender",
+                weight: 3,
+                make: || Box::pin(scen::c10::run_client()),
+                max_steps: 3_000_000,
+                note: "real client Receiver(s) <-> scripted sender that fragments deliveries",
+            },
+            Variant {
+                name: "listener-receiver-vs-fragmenting-sender",
+                weight: 1,
+                make: || Box::pin(scen::c10::run_listener()),
+                max_steps: 3_000_000,
+                note: "real listener-side Receiver(s) <-> scripted sender that fragments deliveries",
+            },
+        ],
+        quick_runs: 10_000,
+        thorough_runs: 500_000,
+        rule: "one run = 2-7 deliveries, each a seeded message split into 1-7 transfer frames at seeded offsets (uniform, and biased into section headers, length fields and the first/last 3 bytes; empty-payload frames), continuation frames that omit or repeat delivery-id/delivery-tag/message-format, settled appearing late, a delivery on a second link interleaved between the frames, abort at a seeded position followed by normal deliveries, and (1 run in 5) one contradictory continuation field; seeded stream fragmentation and schedule; every run is non-trivial; distinct = distinct event-log hash",
+        assumptions: vec![
+            "'receives nothing before the final frame' is checked at simulator-proven quiescence after each non-final frame",
+            "after a contradictory continuation frame the only accepted results are an error from recv or a detached link, never a message",
+        ],
+        real_components: REAL.to_vec(),
+        stub_components: STUB.to_vec(),
+        expected_probes: vec!["empty-payload-frame", "checked-nothing-before-last-frame", "interleaved-other-link", "delivery-aborted", "contradictory-continuation-field", "contradiction-reported-as-error"],
+    }
 }
 
 fn c09() -> Property {
